@@ -150,6 +150,7 @@ def _worker(args):
         sys.stderr = open(os.devnull, "w")
     import hypothesis
     from hypothesis import given, settings, HealthCheck, Phase, Verbosity
+    import simworld  # noqa: F401  (see main)
     mod = importlib.import_module("props." + pid.lower())
     known = load_known(pid)
     t0 = time.time()
@@ -262,6 +263,7 @@ def write_replay(pid, params_json, violations, tag=""):
 
 
 def run_replay(pid, path):
+    import simworld  # noqa: F401  (see main)
     mod = importlib.import_module("props." + pid.lower())
     known = load_known(pid)
     with open(path) as f:
@@ -314,6 +316,9 @@ def main(argv=None):
         return run_replay(pid, a.replay)
     t0 = time.time()
     try:
+        # simworld must be imported before anything pulls in wormhole._dilation: it puts the Noise
+        # implementation (noiseprotocol or the /verif shim) on sys.path, and wormhole binds it at import
+        import simworld  # noqa: F401
         mod = importlib.import_module("props." + pid.lower())
     except Exception:
         traceback.print_exc()
@@ -381,6 +386,9 @@ def main(argv=None):
         results = pool.map(_worker, jobs, chunksize=1)
     for job, r in zip(jobs, results):
         part = job[7]
+        if os.environ.get("VERIF_DEBUG"):
+            print("shard", job[3], part, "evaluations", r["evaluations"], "violation", bool(r["violation"]),
+                  "harness_error", bool(r["harness_error"]), "skipped", r["skipped"])
         pp = per_part.setdefault(part or "main", dict(evaluations=0, nontrivial=0))
         pp["evaluations"] += r["evaluations"]
         pp["nontrivial"] += r["nontrivial"]
